@@ -16,6 +16,7 @@ import (
 type C15 struct {
 	prevFeedsKey   string
 	lastListChange int64
+	lastListChangeBlock int64
 	nJustOracle, nJustFeeds, nEarlyReactivationRejected, nActivations int
 }
 
@@ -63,7 +64,7 @@ func (m *C15) OnBlock(e *Env, blk *world.BlockRecord) {
 		key += fmt.Sprintf("%s/%d;", f.SignalID, f.Interval)
 	}
 	if key != m.prevFeedsKey {
-		m.prevFeedsKey, m.lastListChange = key, now.Unix()
+		m.prevFeedsKey, m.lastListChange, m.lastListChangeBlock = key, now.Unix(), blk.Height
 	}
 	listUpdate := m.lastListChange
 	for _, d := range fs.JDeact {
@@ -90,7 +91,15 @@ func (m *C15) OnBlock(e *Env, blk *world.BlockRecord) {
 			for _, f := range cf.Feeds {
 				p, has := fs.Prices[d.Val][f.SignalID]
 				stale := !has || p.Status == feedstypes.SIGNAL_PRICE_STATUS_UNSPECIFIED || p.Ts+f.Interval < now.Unix()
-				if stale && since.Unix()+grace < now.Unix() && listUpdate+grace < now.Unix() {
+				// the block-height fallback: with slow blocks a miss also needs the block bound to have passed -- the feed-list update
+				// block plus grace/3 and, for a validator that has reported (any status), the report's block plus interval/3
+				blockBound := m.lastListChangeBlock + grace/feedstypes.MaxGuaranteeBlockTime
+				if has && p.Status != feedstypes.SIGNAL_PRICE_STATUS_UNSPECIFIED {
+					if b := p.Height + f.Interval/feedstypes.MaxGuaranteeBlockTime; b > blockBound {
+						blockBound = b
+					}
+				}
+				if stale && since.Unix()+grace < now.Unix() && listUpdate+grace < now.Unix() && blockBound < blk.Height {
 					just = "feeds"
 				}
 			}
